@@ -306,6 +306,12 @@ def check_handlers(ctx):
             ok = (isinstance(fx, ast.Subscript) or (
                 isinstance(fx, ast.Call) and bool(method_call(fx, 'get')))) \
                 and ('registered_checks' in ft or 'get_extensions(' in ft)
+        if not ok and isinstance(e, ast.Call) and isinstance(
+                en.expand(e.func), ast.Subscript):
+            # a constant of the language picked from a constant table of
+            # the two constant classes (C01.CONST decides which is which)
+            ok = c01.const_class_table(prog, pc.module,
+                                       en.expand(e.func).value)
         ctx.ob('C02.HANDLERS', ok, '%s:%d' % (
             ctx.where(pc.module, pc.node).split(':')[0], p.outcome.line),
             pc.qual, 'leaf parser result ' + p.outcome.text(),
